@@ -179,3 +179,8 @@ where
             .finish()
     }
 }
+
+#[cfg(feature = "verif_hooks")]
+pub mod verif_hooks {
+    pub use super::queues::{Action, ToWrite, WriteQueues};
+}
